@@ -236,12 +236,23 @@ func actName(a int) flyt.Action {
 		return " " // an action that is not empty, only looks it
 	case 9:
 		return "\t\n"
+	case 2, 3, 4, 6, 7:
+		// ordinary words a library might be tempted to give a meaning of its own ("a5" stays: it is
+		// a prefix of "a55")
+		return flyt.Action(magicActions[a])
 	default:
 		return flyt.Action(fmt.Sprintf("a%d", a))
 	}
 }
 
+var magicActions = map[int]string{2: "error", 3: "retry", 4: "fail", 6: "cancel", 7: "success"}
+
 func actID(a flyt.Action) int {
+	for i, m := range magicActions {
+		if string(a) == m {
+			return i
+		}
+	}
 	switch a {
 	case "":
 		return 0
